@@ -2,12 +2,15 @@ package props
 
 import (
 	"encoding/json"
+	"encoding/xml"
 	"fmt"
 	"sort"
 	"strings"
 
 	"github.com/gopcua/opcua/id"
+	"github.com/gopcua/opcua/schema"
 	"github.com/gopcua/opcua/server"
+	"github.com/gopcua/opcua/server/attrs"
 	"github.com/gopcua/opcua/ua"
 
 	"verifharness/fw"
@@ -32,6 +35,15 @@ type c33World struct {
 	baseline map[string][]*ua.ReferenceDescription
 	children map[string][]string // reference type -> direct subtypes
 	refTypes []string
+	ledger   map[string][]string // node -> references added by this harness through Node.AddRef ("type|forward|target")
+	exact    map[string]bool     // nodes all of whose references were added by this harness
+}
+
+// addRef adds a reference through the public API and records it as ground truth.
+func (w *c33World) addRef(from, to *server.Node, rt server.RefType, forward bool) {
+	from.AddRef(to, rt, forward)
+	k := from.ID().String()
+	w.ledger[k] = append(w.ledger[k], fmt.Sprintf("%s|%v|%s", ua.NewNumericNodeID(0, uint32(rt)), forward, to.ID()))
 }
 
 func (w *c33World) browse(bd *ua.BrowseDescription) (res *ua.BrowseResult, pn *fw.Panic) {
@@ -52,20 +64,43 @@ func c33Build() (*c33World, error) {
 	ns := server.NewNodeNameSpace(srv, "verif")
 	root, _ := srv.Namespace(0)
 	root.Objects().AddRef(ns.Objects(), id.HasComponent, true)
-	// an added namespace with a few nodes and mixed references
-	a := rwVar(ns, "a", int64(1))
-	b := rwVar(ns, "b", int64(2))
+	// an added namespace with a few nodes and mixed references; every reference is recorded in the ledger
+	w := &c33World{srv: srv, baseline: map[string][]*ua.ReferenceDescription{}, children: map[string][]string{}, ledger: map[string][]string{}, exact: map[string]bool{}}
+	mk := func(name string) *server.Node {
+		n := server.NewNode(ua.NewStringNodeID(ns.ID(), name), map[ua.AttributeID]*ua.DataValue{
+			ua.AttributeIDBrowseName: server.DataValueFromValue(attrs.BrowseName(name)),
+			ua.AttributeIDNodeClass:  server.DataValueFromValue(uint32(ua.NodeClassVariable)),
+		}, nil, func() *ua.DataValue { return server.DataValueFromValue(int64(1)) })
+		ns.AddNode(n)
+		w.exact[n.ID().String()] = true
+		return n
+	}
+	a, b := mk("a"), mk("b")
 	f := server.NewFolderNode(ua.NewStringNodeID(ns.ID(), "folder"), "folder")
-	ns.AddNode(f)
-	ns.Objects().AddRef(f, id.Organizes, true)
-	f.AddRef(a, id.HasComponent, true)
-	f.AddRef(b, id.Organizes, true)
-	a.AddRef(f, id.HasComponent, false)
-	b.AddRef(a, id.HasOrderedComponent, true)
-	b.AddRef(a, id.HasProperty, true)
-	f.AddRef(ns.Objects(), id.Organizes, false)
+	ns.AddNode(f) // NewFolderNode gives the node a reference of its own, so only the lower bound applies to it
+	w.addRef(ns.Objects(), a, id.HasComponent, true)
+	w.addRef(ns.Objects(), b, id.HasComponent, true)
+	w.addRef(ns.Objects(), f, id.Organizes, true)
+	w.addRef(f, a, id.HasComponent, true)
+	w.addRef(f, b, id.Organizes, true)
+	w.addRef(a, f, id.HasComponent, false)
+	w.addRef(b, a, id.HasOrderedComponent, true)
+	w.addRef(b, a, id.HasProperty, true)
+	w.addRef(f, ns.Objects(), id.Organizes, false)
+	// references that leave the node namespace: a tag of a map namespace, the folder of the map namespace,
+	// and a node that was linked but never registered with a namespace
+	mns := server.NewMapNamespace(srv, "verifmap")
+	mns.Mu.Lock()
+	mns.Data["Tag1"] = int64(5)
+	mns.Mu.Unlock()
+	tag := server.NewNode(ua.NewStringNodeID(mns.ID(), "Tag1"), nil, nil, nil)
+	w.addRef(f, tag, id.HasComponent, true)
+	w.addRef(ns.Objects(), mns.Objects(), id.Organizes, true)
+	w.addRef(root.Objects(), mns.Objects(), id.HasComponent, true)
+	ghost := server.NewNode(ua.NewStringNodeID(ns.ID(), "never-registered"), nil, nil, nil)
+	w.addRef(a, ghost, id.HasProperty, true)
+	w.addRef(b, ghost, id.Organizes, false)
 
-	w := &c33World{srv: srv, baseline: map[string][]*ua.ReferenceDescription{}, children: map[string][]string{}}
 	// discover nodes by breadth first search over unfiltered browses
 	queue := []*ua.NodeID{ua.NewNumericNodeID(0, id.RootFolder), ua.NewNumericNodeID(0, id.References), ns.Objects().ID()}
 	seen := map[string]bool{}
@@ -235,11 +270,110 @@ func diffSorted(a, b []string) []string {
 	return out
 }
 
+// refKey3 is refKey without the node class (the ledger and the nodeset do not carry it).
+func refKey3(r *ua.ReferenceDescription) string {
+	t, n := "", ""
+	if r.ReferenceTypeID != nil {
+		t = r.ReferenceTypeID.String()
+	}
+	if r.NodeID != nil && r.NodeID.NodeID != nil {
+		n = r.NodeID.NodeID.String()
+	}
+	return fmt.Sprintf("%s|%v|%s", t, r.IsForward, n)
+}
+
+// groundTruth compares the unfiltered browse with references known independently of Browse: those this
+// harness added through Node.AddRef (exactly, for nodes it owns) and those the standard nodeset XML declares on a
+// node (as a lower bound: the import may add inverse references on top).
+func (w *c33World) groundTruth(c *fw.Ctx) {
+	for node, refs := range w.ledger {
+		var got []string
+		for _, r := range w.baseline[node] {
+			got = append(got, refKey3(r))
+		}
+		want := append([]string{}, refs...)
+		sort.Strings(got)
+		sort.Strings(want)
+		c.Eval(1)
+		c.Class("ground-truth:added-references", int64(len(want)))
+		if missing := diffSorted(want, got); len(missing) > 0 {
+			c.Violation("c33:added-reference-not-returned", fmt.Sprintf("unfiltered browse of %s lacks references added with AddRef: %v", node, head(missing, 4)),
+				c33Case{Node: node, RefType: "i=0", Subtypes: true, Detail: fmt.Sprint(missing)})
+		}
+		if extra := diffSorted(got, want); len(extra) > 0 && w.exact[node] {
+			c.Violation("c33:reference-returned-that-was-never-added", fmt.Sprintf("unfiltered browse of %s returns references nobody added: %v", node, head(extra, 4)),
+				c33Case{Node: node, RefType: "i=0", Subtypes: true, Detail: fmt.Sprint(extra)})
+		}
+	}
+	// the standard nodeset, parsed here (not by the server)
+	type xref struct {
+		Type    string `xml:"ReferenceType,attr"`
+		Forward string `xml:"IsForward,attr"`
+		Target  string `xml:",chardata"`
+	}
+	type xnode struct {
+		ID   string `xml:"NodeId,attr"`
+		Refs []xref `xml:"References>Reference"`
+	}
+	var set struct {
+		Aliases []struct {
+			Name string `xml:"Alias,attr"`
+			ID   string `xml:",chardata"`
+		} `xml:"Aliases>Alias"`
+		Nodes []xnode `xml:",any"`
+	}
+	if err := xml.Unmarshal(schema.OpcUaNodeSet2, &set); err != nil {
+		c.Inconclusive("nodeset XML: " + err.Error())
+		return
+	}
+	alias := map[string]string{}
+	for _, a := range set.Aliases {
+		alias[a.Name] = strings.TrimSpace(a.ID)
+	}
+	// server.New replaces these imported nodes by dynamic ones (namespace array, server status, capabilities);
+	// their references are whatever the replacement carries, which is not Browse's business
+	replaced := map[string]bool{"i=2255": true, "i=2992": true, "i=2993": true, "i=11705": true}
+	for i := 2256; i <= 2266; i++ {
+		replaced[fmt.Sprintf("i=%d", i)] = true
+	}
+	checked, declared := 0, 0
+	for _, n := range set.Nodes {
+		base, ok := w.baseline[n.ID]
+		if n.ID == "" || !ok || replaced[n.ID] {
+			continue
+		}
+		have := map[string]int{}
+		for _, r := range base {
+			have[refKey3(r)]++
+		}
+		for _, r := range n.Refs {
+			t := r.Type
+			if a, ok := alias[t]; ok {
+				t = a
+			}
+			k := fmt.Sprintf("%s|%v|%s", t, r.Forward != "false", strings.TrimSpace(r.Target))
+			declared++
+			if have[k] == 0 {
+				c.Class("nodeset-reference-missing:"+n.ID, 1)
+				c.Violation("c33:nodeset-reference-not-returned", fmt.Sprintf("the nodeset declares reference %s on %s, the unfiltered browse does not return it", k, n.ID),
+					c33Case{Node: n.ID, RefType: "i=0", Subtypes: true, Detail: k})
+			}
+		}
+		checked++
+	}
+	c.Eval(int64(checked))
+	c.Extra("nodeset_nodes_compared", checked)
+	c.Extra("nodeset_references_compared", declared)
+}
+
 func c33Run(c *fw.Ctx) error {
 	w, err := c33Build()
 	if err != nil {
 		c.Violation("c33:unfiltered-browse-fails", err.Error(), nil)
 		return nil
+	}
+	if c.Batch == 0 && c.Resume == 0 {
+		w.groundTruth(c)
 	}
 	c.Extra("nodes_discovered", len(w.nodes))
 	c.Extra("reference_types", len(w.refTypes))
@@ -292,7 +426,7 @@ func init() {
 		Plan: func(tier string) fw.Plan {
 			p := fw.Plan{Batches: 8, TimeoutS: 900, MinNontrivial: 10000, Level: "exploration",
 				Rule:        "in-process Namespace.Browse of the real server over the nodes discovered by breadth-first unfiltered browsing of the standard address space plus an added namespace (quick: every 23rd standard node and all added nodes; thorough: all nodes) x 3 directions x all reference types of the hierarchy (abstract ones included) + null + unknown x {subtypes, not} x class masks {0, single classes, combinations, random}; oracle: unfiltered browse filtered by direction, (type = T) or (subtypes and type in closure(T), closure computed from forward HasSubtype edges), class mask; compared as multisets; distinct = distinct browse descriptions",
-				Assumptions: []string{"the unfiltered browse (null reference type, both directions, mask 0) is the reference set: a reference the server never returns unfiltered is invisible to this oracle"}}
+				Assumptions: []string{"the unfiltered browse (null reference type, both directions, mask 0) is the reference set for the filter oracle; it is itself compared with ground truth: references added by the harness through Node.AddRef (incl. targets in a map namespace and never-registered targets) and the references the standard nodeset XML declares (parsed independently, lower bound)"}}
 			if tier == "thorough" {
 				p.Batches, p.TimeoutS, p.MinNontrivial = 16, 3000, 500000
 			}
